@@ -4,11 +4,13 @@ package core
 
 import (
 	"bytes"
+	"context"
 	"crypto/tls"
 	"encoding/json"
 	"fmt"
 	"io"
 	"net/http"
+	"net/url"
 	"os"
 	"path/filepath"
 	"regexp"
@@ -19,6 +21,9 @@ import (
 	"sync/atomic"
 	"testing"
 	"time"
+
+	"github.com/bluenviron/gortmplib"
+	srt "github.com/datarhei/gosrt"
 
 	"github.com/bluenviron/mediamtx/internal/test"
 	"verif.local/vmon"
@@ -158,8 +163,86 @@ func TestVerifC40(t *testing.T) {
 				rd.close()
 			})
 		}
+		// RTMP and SRT publishers and readers (real gortmplib / gosrt clients) on the same paths
+		actor("rtmppub", func(_ int, rng interface{ IntN(int) int }) {
+			p, err := c03cDialRTMP(b.ports["rtmp"], fmt.Sprintf("p%d", rng.IntN(3)))
+			if err != nil {
+				count("rtmp-publish-refused")
+				time.Sleep(5 * time.Millisecond)
+				return
+			}
+			if p.attach() == nil {
+				count("rtmp-publish-ok")
+				time.Sleep(time.Duration(5+rng.IntN(80)) * time.Millisecond)
+			}
+			p.close()
+		})
+		actor("srtpub", func(_ int, rng interface{ IntN(int) int }) {
+			p, err := c03cDialSRT(b.ports["srt"], fmt.Sprintf("p%d", rng.IntN(3)))
+			if err != nil {
+				count("srt-publish-refused")
+				time.Sleep(5 * time.Millisecond)
+				return
+			}
+			if p.attach() == nil {
+				count("srt-publish-ok")
+				time.Sleep(time.Duration(5+rng.IntN(80)) * time.Millisecond)
+			}
+			p.close()
+		})
+		actor("rtmprd", func(_ int, rng interface{ IntN(int) int }) {
+			u, _ := url.Parse(fmt.Sprintf("rtmp://127.0.0.1:%d/p%d", b.ports["rtmp"], rng.IntN(3)))
+			c := &gortmplib.Client{URL: u, Publish: false}
+			ctx, cancel := context.WithTimeout(context.Background(), 5*time.Second)
+			err := c.Initialize(ctx)
+			cancel()
+			if err != nil {
+				count("rtmp-read-refused")
+				time.Sleep(5 * time.Millisecond)
+				return
+			}
+			count("rtmp-read-ok")
+			c.NetConn().SetReadDeadline(time.Now().Add(time.Duration(50+rng.IntN(200)) * time.Millisecond)) //nolint:errcheck
+			rd := &gortmplib.Reader{Conn: c}
+			if rd.Initialize() == nil {
+				count("rtmp-read-got-tracks")
+				rd.Read() //nolint:errcheck
+			}
+			c.Close()
+		})
+		actor("srtrd", func(_ int, rng interface{ IntN(int) int }) {
+			cf := srt.DefaultConfig()
+			address, err := cf.UnmarshalURL(fmt.Sprintf("srt://127.0.0.1:%d?streamid=read:p%d", b.ports["srt"], rng.IntN(3)))
+			if err != nil || cf.Validate() != nil {
+				return
+			}
+			conn, err := srt.Dial("srt", address, cf)
+			if err != nil {
+				count("srt-read-refused")
+				time.Sleep(5 * time.Millisecond)
+				return
+			}
+			count("srt-read-ok")
+			conn.SetReadDeadline(time.Now().Add(time.Duration(50+rng.IntN(200)) * time.Millisecond)) //nolint:errcheck
+			buf := make([]byte, 2048)
+			if n, _ := conn.Read(buf); n > 0 {
+				count("srt-read-got-data")
+			}
+			conn.Close()
+		})
 		actor("api", func(_ int, rng interface{ IntN(int) int }) {
-			switch rng.IntN(9) {
+			switch rng.IntN(11) {
+			case 9, 10:
+				kind := []string{"rtmpconns", "srtconns"}[rng.IntN(2)]
+				_, body := api("GET", "/v3/"+kind+"/list", "")
+				var l struct {
+					Items []struct {
+						ID string `json:"id"`
+					} `json:"items"`
+				}
+				if json.Unmarshal(body, &l) == nil && len(l.Items) > 0 && rng.IntN(2) == 0 {
+					api("POST", "/v3/"+kind+"/kick/"+l.Items[rng.IntN(len(l.Items))].ID, "")
+				}
 			case 7:
 				api("GET", "/v3/hlssessions/list", "")
 			case 8:
@@ -293,12 +376,13 @@ func TestVerifC40(t *testing.T) {
 	for k := range ops {
 		ks = append(ks, k)
 		r.Distinct("op:" + k)
+		r.Count("op "+k, ops[k])
 		r.EvalN(ops[k]) // every client operation is an evaluated case; distinct = (operation, outcome) classes + rounds
 	}
 	sort.Strings(ks)
 	for _, k := range ks {
 		r.Sample(map[string]any{"operation_outcome": k, "times": ops[k]})
 	}
-	r.Finish("rounds of a real Core (RTSP, RTMP, SRT, WebRTC, HLS, API, playback; metrics and pprof over TLS) under 11 concurrent actors: 3 RTSP publishers (with in-band SPS / PPS changes) and 4 RTSP readers on 3 paths (overriding publishers, reader limit) and on 2 on-demand proxy paths whose RTSP sources pull from this server and fail with the publishers, API queries and session kicks, metrics / pprof scrapes, HLS requests, and a reload actor (path defaults, path add / delete / patch, HLS restart, logger change = everything restarts, write queue size); shutdown while the actors run (even rounds) or after. Oracles: Go race detector (any report with a mediamtx frame), process crash, Core.Close() returns, and no goroutine remains inside mediamtx code after shutdown. non-trivial = distinct (operation, outcome) observed + rounds",
+	r.Finish("rounds of a real Core (RTSP, RTMP, SRT, WebRTC, HLS, API, playback; metrics and pprof over TLS) under 15 concurrent actors: RTMP and SRT publishers and readers (gortmplib, gosrt) with API listing and kicking of their connections, 3 RTSP publishers (with in-band SPS / PPS changes) and 4 RTSP readers on 3 paths (overriding publishers, reader limit) and on 2 on-demand proxy paths whose RTSP sources pull from this server and fail with the publishers, API queries and session kicks, metrics / pprof scrapes, HLS requests, and a reload actor (path defaults, path add / delete / patch, HLS restart, logger change = everything restarts, write queue size); shutdown while the actors run (even rounds) or after. Oracles: Go race detector (any report with a mediamtx frame), process crash, Core.Close() returns, and no goroutine remains inside mediamtx code after shutdown. non-trivial = distinct (operation, outcome) observed + rounds",
 		"client-side errors (refused, cut off, connection reset while a server restarts) are expected and only counted; completion of individual client requests is judged through the goroutines left behind, not through client-side timeouts")
 }
